@@ -321,10 +321,14 @@ ParseText(s, text, ok, got) ==
        ELSE UNCHANGED jvars
 (* b was parsed from a serialisation of a: it survived.  close[i]: the harness' own arithmetic on the i-th number  *)
 (* of both trees, |x' - x| <= |x| * 2^-52 (outside what a decimal specification can express)                   *)
+(* (Whether b really is a re-parse of a text printed from a is the driver's business: a script generated from the    *)
+(* model may pair two slots whose texts coincide in the model's rendering but not in the library's - an empty       *)
+(* container printed formatted - and then the event says nothing about the library.)                                *)
 RoundTrip(a, b, close) ==
-    /\ Live(a) /\ Live(b) /\ origin[b] \in printed[a] /\ UNCHANGED jvars
-    /\ Holds(Survived(slots[a], slots[b]))
-    /\ Holds(Len(close) = NumCount(slots[a]) /\ \A i \in 1..Len(close) : close[i] = 1)
+    /\ Live(a) /\ Live(b) /\ UNCHANGED jvars
+    /\ origin[b] \in printed[a] =>
+         /\ Holds(Survived(slots[a], slots[b]))
+         /\ Holds(Len(close) = NumCount(slots[a]) /\ \A i \in 1..Len(close) : close[i] = 1)
 
 -----------------------------------------------------------------------------
 (* invariants for the model checker *)
